@@ -426,7 +426,7 @@ pub fn judge(env: &mut Env, c: &H2Case, verdict: Proof, notes: &mut Vec<String>)
     if c.s.iter().all(|r| r.hp.iterations > hard) && verdict != Proof::Bogus {
         out.push(Finding {
             rule: "hard-limit-not-bogus",
-            sig: format!("{}|{}|{}", proof_name(verdict), limcls, pc),
+            sig: format!("{}|{}", proof_name(verdict), limcls),
             expected: json!({"verdict": "Bogus", "why": format!("every presented NSEC3 has iterations > hard limit {hard}")}),
         });
     }
@@ -555,6 +555,7 @@ pub fn judge(env: &mut Env, c: &H2Case, verdict: Proof, notes: &mut Vec<String>)
 /// discriminator. Priority-ordered predicates over what the set presents (never over hickory's
 /// internals); `None` = none applies, the detailed signature from `judge` is kept.
 ///  0 wraparound-dependent   verdict changes when the wrap-around record is split (differential)
+///  0b mixed-parameter-proof the minimal set needs in-zone records of two different parameter sets
 ///  1 apex-without-match     NODATA for the apex without a record matching it
 ///  2 answer-with-qname-match  wildcard-expanded answer, yet a record matches the query name
 ///  3 nodata-at-delegation   NODATA (not DS) from a matching record that is the parent side of a cut
@@ -571,6 +572,11 @@ pub fn cause_of(env: &mut Env, c: &H2Case) -> Option<&'static str> {
         if r.zone == env.z.apex {
             groups.entry(r.hp.clone()).or_default().push(&r.n3);
         }
+    }
+    if groups.len() > 1 {
+        // a minimal unjustified set that needs records of two parameter sets: the proof was
+        // assembled across chains
+        return Some("mixed-parameter-proof");
     }
     let (hp, g) = groups.into_iter().max_by_key(|(_, g)| g.len())?;
     let al = env.z.apex.len();
@@ -1183,6 +1189,13 @@ fn craft(r: &mut Runner, v: &Value) {
         z.add(&refzone::name(o), t, denial::filler_rdata(t, &apex));
     }
     let p = ZParams::from_json(&v["params"]);
+    if let Some(kind @ ("e2e" | "chain")) = v["mode"].as_str() {
+        let case = json!({"kind": kind, "zone": z.to_json(), "params": p.to_json(), "query": v["query"]});
+        if let Err(e) = e2e::replay(r, &case) {
+            eprintln!("craft: {e}");
+        }
+        return;
+    }
     let mut env = Env::new(&z, &p, 100_000);
     let names = |k: &str| -> Vec<Name> { v[k].as_array().map(|a| a.iter().filter_map(|x| x.as_str()).map(refzone::name).collect()).unwrap_or_default() };
     let mut s: Vec<Rec> = Vec::new();
@@ -1305,51 +1318,65 @@ fn main() {
 
     // must-observe (thresholds >= 3x below what the quick tier sees at seeds 1..5)
     for (k, v) in [
-        ("h2/Secure", 20_000u64),
-        ("h2/Bogus", 200_000),
-        ("h2/Insecure", 2_000),
-        ("secure_justified", 10_000),
-        ("secure_justified/nodata", 3_000),
-        ("secure_justified/nxdomain", 1_000),
-        ("secure_justified/expansion", 1_000),
-        ("claim/nodata", 100_000),
-        ("claim/nxdomain", 100_000),
-        ("claim/expansion", 100_000),
-        ("param/salt0", 20),
-        ("param/salt1", 20),
-        ("param/salt8", 20),
-        ("param/it0", 20),
-        ("param/it1", 20),
-        ("param/it5", 20),
-        ("param/optout0", 50),
-        ("param/optout1", 30),
-        ("optout_zones_with_insecure_delegation", 5),
-        ("optout_sets/Secure", 2_000),
-        ("allsubsets_zones", 10),
-        ("allsubsets_sweeps", 1_000),
+        ("h2/Secure", 150_000u64),
+        ("h2/Bogus", 700_000),
+        ("h2/Insecure", 50_000),
+        ("secure_justified", 150_000),
+        ("secure_justified/nodata", 15_000),
+        ("secure_justified/nxdomain", 12_000),
+        ("secure_justified/expansion", 100_000),
+        ("claim/nodata", 250_000),
+        ("claim/nxdomain", 250_000),
+        ("claim/expansion", 700_000),
+        ("param/salt0", 15),
+        ("param/salt1", 15),
+        ("param/salt8", 15),
+        ("param/it0", 15),
+        ("param/it1", 15),
+        ("param/it5", 15),
+        ("param/optout0", 40),
+        ("param/optout1", 20),
+        ("optout_zones_with_insecure_delegation", 12),
+        ("optout_sets", 300_000),
+        ("optout_sets/Secure", 3_000),
+        ("allsubsets_zones", 50),
+        ("allsubsets_sweeps", 10_000),
         ("relsubsets_sweeps", 10_000),
-        ("mixed_sets", 20_000),
-        ("mix/salt", 3_000),
-        ("mix/iter", 3_000),
-        ("mix/sibling", 3_000),
-        ("mix/owner:sibling", 1_000),
-        ("mix/owner:child", 100),
-        ("mix/owner:parent", 300),
-        ("soa/absent", 20_000),
-        ("limitclass/le-soft", 100_000),
-        ("limitclass/gt-soft", 3_000),
-        ("limitclass/gt-hard", 3_000),
-        ("limit/100-500/gt-soft/Insecure", 30),
-        ("limit/100-500/gt-hard/Bogus", 30),
-        ("limit/0-0/gt-hard/Bogus", 300),
-        ("limit/1-5/gt-soft/Insecure", 100),
-        ("limit/5-5/le-soft/Secure", 100),
-        ("limit/0-500/gt-soft/Insecure", 100),
-        ("e2e/queries", 10_000),
-        ("e2e/accepted_secure", 3_000),
-        ("e2e/judged_complete", 3_000),
-        ("e2e/chain_compared", 50),
+        ("mixed_sets", 60_000),
+        ("mix/salt", 20_000),
+        ("mix/iter", 20_000),
+        ("mix/salt+iter", 20_000),
+        ("mix/sibling", 40_000),
+        ("mix/owner:sibling", 12_000),
+        ("mix/owner:child", 5_000),
+        ("mix/owner:parent", 5_000),
+        ("soa/absent", 250_000),
+        ("limitclass/le-soft", 1_000_000),
+        ("limitclass/gt-soft", 60_000),
+        ("limitclass/gt-hard", 40_000),
+        ("limit/100-500/gt-soft/Insecure", 100),
+        ("limit/100-500/gt-hard/Bogus", 100),
+        ("limit/0-0/gt-hard/Bogus", 40_000),
+        ("limit/1-5/gt-soft/Insecure", 20_000),
+        ("limit/5-5/le-soft/Secure", 10_000),
+        ("limit/0-500/gt-soft/Insecure", 40_000),
+        ("e2e/zones", 80),
+        ("e2e/queries", 25_000),
+        ("e2e/accepted_secure", 12_000),
+        ("e2e/judged_complete", 12_000),
+        ("e2e/judged_complete/answer", 150),
+        ("e2e/own_proof_accepted", 12_000),
+        ("e2e/own_proof_accepted/nodata", 500),
+        ("e2e/own_proof_accepted/ent-nodata", 500),
+        ("e2e/own_proof_accepted/nxdomain", 10_000),
+        ("e2e/own_proof_accepted/wildcard-answer", 300),
+        ("e2e/secure_denial/nodata", 1_000),
+        ("e2e/secure_denial/nxdomain", 6_000),
+        ("e2e/secure_denial/expansion", 700),
+        ("e2e/chain_compared", 80),
+        ("e2e/chain_agrees", 30),
         ("probe/unknown_hash_alg_rejected_by_decoder", 1),
+        ("probe/unknown_flags_rejected_by_decoder", 1),
     ] {
         rep.must(k, v);
     }
@@ -1365,7 +1392,7 @@ fn main() {
     let max_double = if thorough { 2_000 } else { 250 };
     let apex = refzone::default_apex();
     let qnames = refzone::query_names(&apex, 3, refzone::FRESH_LABEL);
-    let n_zones = ctx.budget(240, 12_000);
+    let n_zones = ctx.budget(240, 5_000);
     let mut rng = ctx.rng("zones");
     let mut r = Runner::new(&mut rep);
     let e2e_rt = e2e::runtime();
